@@ -518,6 +518,16 @@ theorem good_step {s s' : St} (h : Good s) (a : Act) (hs : step s a = some s') :
         · rfl
       refine ⟨?_, ?_, ?_, ?_, ?_, ?_, ?_, ?_, ?_, ?_⟩ <;> simp_all [Micro.ansW, Micro.ansM, Prog.isProcessing, tokens, owed]
     · cases hs
+  case chooseRet sc =>
+    split at hs
+    · simp only [Option.some.injEq] at hs; subst hs; right
+      exact ⟨tok, sup, wfw, wfm, rel1, store, note, busy, act, proc⟩
+    · cases hs
+  case tick d =>
+    split at hs
+    · simp only [Option.some.injEq] at hs; subst hs; right
+      exact ⟨tok, sup, wfw, wfm, rel1, store, note, busy, act, proc⟩
+    · cases hs
   case term =>
     split at hs
     · simp only [Option.some.injEq] at hs; subst hs; left; rfl
